@@ -303,7 +303,7 @@ def clientHost (h : Nat) (origin : Addr) : Option Nat :=
 /-- the stream object `accept` hands out. -/
 def acceptedObj (my origin : Addr) (chan fc : Nat) : Obj :=
   .stream (some { loc := my, rem := origin, chan := chan, fc := fc })
-          (some { loc := my, rem := origin, fc := fc + 1 })
+          (some { loc := my, rem := origin, fc := fc + 1, sid := chan })
 
 /-- `opTcpAccept` after the queue scan has handed out `req` (the model's text with `acceptLocal`,
     `clientHost`, `acceptedObj` folded). -/
